@@ -103,6 +103,7 @@ def _cases(rng, n):
     _cases_t15(rng, n, reqs, want)  # --- T15
     _cases_t16(rng, n, reqs, want)  # --- T16
     _cases_t18(rng, n, reqs, want)  # --- T18
+    _cases_t19(rng, n, reqs, want)  # --- T19
     # --- T11: `sorted(xs)` of ints (duplicates, negatives, already sorted / reversed inputs)
     for _ in range(n // 2):
         xs = [rng.randrange(-9, 10) for _ in range(rng.randrange(0, 9))]
@@ -298,6 +299,36 @@ def _cases_t18(rng, n, reqs, want):
         reqs.append(("t18_bits", {"n": common.rat(k)}))
         want.append(("raw", k.bit_length()))
 # --- end T18
+
+
+# --- T19: `str.strip()` (ASCII whitespace incl. U+001C-U+001F) and the sum-splitting regular expression of `PauliSum.__init__`
+def _cases_t19(rng, n, reqs, want):
+    import re
+    alpha = "+()+ (+) \t\n\x0b\x0c\r\x1c\x1d\x1e\x1f ab1*jZ-."
+    fixed = ["", "+", "a+b", "(1+2j)*Z0 + 2*X1", "(a+b", "a+b)", "a+(b+c)+d", "((a+b)+c)+d", "a+b)+(c+d", " \x1c x \x1f\n", "+(+)+", ")+(",
+             "(1+2j)*Z0 + (0.5-1j)*X1 + 3.0*I", "\x1f", " ", "a + (b\n+c) + d"]
+    for s in fixed + ["".join(rng.choice(alpha) for _ in range(rng.randrange(0, 12))) for _ in range(n)]:
+        reqs.append(("t19_text", {"s": s}))
+        want.append(("raw", {"strip": s.strip(), "resplit": re.split(r"\+(?![^(]*\))", s)}))
+    # sets of hashable objects: `hash` and `==` given per object (`==` = equality of a class label: an equivalence), incl. equal objects
+    # with different hashes (never merged) and different objects with equal hashes (never merged either)
+    class K:
+        def __init__(self, h, c):
+            self.h, self.c = h, c
+
+        def __hash__(self):
+            return self.h
+
+        def __eq__(self, o):
+            return self.c == o.c
+    for _ in range(n):
+        xs = [(rng.randrange(0, 4), rng.randrange(0, 3)) for _ in range(rng.randrange(0, 7))]
+        u = rng.random()
+        ys = rng.sample(xs, len(xs)) if u < 0.4 else ([rng.choice(xs) for _ in xs] if xs and u < 0.6 else
+                                                       [(rng.randrange(0, 4), rng.randrange(0, 3)) for _ in range(rng.randrange(0, 7))])
+        reqs.append(("t19_hset", {"xs": [list(p) for p in xs], "ys": [list(p) for p in ys]}))
+        want.append(("raw", {"len": len(set(K(*p) for p in xs)), "eq": set(K(*p) for p in xs) == set(K(*p) for p in ys)}))
+# --- end T19
 
 
 def _cases_t2(rng, n, reqs, want):
@@ -685,7 +716,7 @@ def _cases_t15(rng, n, reqs, want):
                 "arrayrows": exc(arrayrows, lambda v: v)}))
 # --- end T15
 
-_STRUCTURED = ("t18_", "t2_", "t4_", "t14_", "t7_", "t9_", "t15_", "t16_")  # prelude ops whose answers are structured (compared after normalising ints)
+_STRUCTURED = ("t19_", "t18_", "t2_", "t4_", "t14_", "t7_", "t9_", "t15_", "t16_")  # prelude ops whose answers are structured (compared after normalising ints)
 
 
 def run(seed=0, n=120):
